@@ -203,7 +203,7 @@ func (g *gen) declStruct() {
 	case n < 15:
 		g.feat("var-zero-struct")
 		g.line("var %s %s%s", name, pfx, sd.name)
-	case n < 35:
+	case n < 50:
 		// copy of another struct value
 		vs := g.visible(func(o *vr) bool { return sameType(o.t, sd.t) })
 		if len(vs) > 0 {
